@@ -236,8 +236,11 @@ def step (s : HState) (c : HandleCall) : HState :=
       | .send _ =>
         let (H', sent) := opCall (s.handles h) s.lastId r
         { handles := setHandle s.handles h H', lastId := sent.id, wire := s.wire ++ [sent] }
-      -- early return / unwinding before op_call: the handle is not touched
-      | .errAddNoValues => s
+      -- `self.discard_modifiers(); return Err(LdapError::AddNoValues)`: controls, timeout and search
+      -- options are set to `None`; no ID is allocated, nothing is sent
+      | .errAddNoValues => { s with handles := setHandle s.handles h {} }
+      -- `assert!` in `construct_exop` (a nameless `Exop` violates the caller contract): the call unwinds
+      -- before `op_call`; a caller that catches the unwind finds the handle untouched
       | .panic => s
 
 /-- a script of calls on a fresh connection: what is sent, and the handles afterwards -/
